@@ -5,12 +5,56 @@ import os
 import sys
 
 V = os.path.dirname(os.path.dirname(os.path.abspath(__file__)))
-TECH = "bounded symbolic execution of the real Python source (CrossHair) with z3 deciding every branch; counterexamples replayed on the real code"
+TECH = "bounded dynamic symbolic execution of the real Python source with z3 deciding every branch (zsym: proxy numbers through pDESy's own code; CrossHair for the leaf units of C11/C19); path tree exhausted per cube; counterexamples and sampled witnesses replayed on the real code"
 
-# property -> (level text, level note, design ref); a property absent here is listed under not_applicable
+SIM_NOTE = ("Trusted: z3; the zsym proxy layer (engine/zsym.py: ints as z3 Int, floats as exact z3 Real on the dyadic domain stated in the evidence); the harness, stubs "
+            "(np.random.normal with sd 0 -> mean, in-memory JSON where used, harness-fixed hashes of task/component objects) and the oracle in props/; "
+            "every counterexample and up to 3 witnesses per cube are re-run on plain CPython with the real libraries and must give the same logs. "
+            "Outside the bound: sizes/ranges beyond those in the evidence, non-dyadic skills, random skills.")
+
+
+def sim_claim(what, ref):
+    return ("Bounded symbolic model checking of the real simulate() code path: each obligation is one cube (structure fixed, numbers symbolic) whose path tree is explored to "
+            "exhaustion with the oracle true on every path - z3's verdict for every value of the symbolic inputs in the stated ranges. " + what, SIM_NOTE, ref)
+
+
 CLAIMS = {
+    "C01": sim_claim("Oracle: FS/SS/FF/SF gates at every phase of every step (live) and in the logs, monotone lifecycle; families: all edge sets x all dependency kinds on 3 tasks, "
+                     "default progress, auto tasks, project/worker absence, task rules.", "DESIGN.md §4 C01"),
+    "C02": sim_claim("Oracle: remaining work changes only in the perform phase and by exactly the recomputed contribution of the live allocation (skills, worker x facility pairs, auto rate, "
+                     "0 for absent resources), finishing only after zero and at the next step, logs equal live values.", "DESIGN.md §4 C02"),
+    "C03": sim_claim("Oracle: exclusivity, two-way task<->resource consistency at the updated/allocated/recorded phases, resource state vs holding, release on FINISHED, ID logs agree.", "DESIGN.md §4 C03"),
+    "C04": sim_claim("Oracle: every newly logged allocation satisfies skill > 0, team/workplace targeting, presence, fixed-ID lists, solo rules, pairing and facility-skill of the worker.", "DESIGN.md §4 C04"),
+    "C05": sim_claim("Oracle: simulate() returns (also on facility/product members), no step at or beyond symbolic max_time, status truthful, and - for members satisfying the strong feasibility "
+                     "predicate - SUCCESS whenever max_time exceeds the sequential bound; unserved task => not SUCCESS.", "DESIGN.md §4 C05"),
+    "C06": sim_claim("Oracle: gates satisfied => not NONE, unbound auto tasks never wait, no eligible FREE worker (or worker-facility pair) while a task can accept it, zero-work tasks finish at the next step.", "DESIGN.md §4 C06"),
+    "C07": sim_claim("Oracle: per-step charge of every worker/facility = rate x [logged WORKING], 0 at absence steps, team/workplace/organization/project sums and totals; rates, work and absence steps symbolic.", "DESIGN.md §4 C07"),
+    "C08": sim_claim("Harness: histories of up to 3 API calls (simulate, resume with all init flags, backward_simulate, reverse_log_information, initialize) as cubes with symbolic max_time/work; "
+                     "oracle: every log found by reflection has project.time entries after every call; entry k equals the recorded-phase snapshot; reversal is an involution.", "DESIGN.md §4 C08"),
+    "C09": sim_claim("Harness: the same member simulated under a permuted iteration order of pDESy's internal sets (harness-controlled hashes: real sets), simulated twice, and after other API calls "
+                     "(hidden state through mutable defaults); oracle: identical dumps; plus an AST scan that every unordered construct in pDESy/model is one the harness controls.", "DESIGN.md §4 C09"),
+    "C10": sim_claim("Oracle: at project absence steps no non-auto progress, no new allocation, everything logged ABSENCE, zero cost, auto tasks progress iff the flag; absent resources contribute and cost nothing; "
+                     "and remove_absence_time_list(simulate(absence=L)) == simulate() dump equality with two symbolic absence steps.", "DESIGN.md §4 C10"),
+    "C11": ("Unit level (CrossHair): every sort function and rule mode on lists of <= 3 (quick) / 4 (thorough) objects with symbolic keys incl. ties, missing skills and equal-but-not-identical ID strings: "
+            "output is a permutation ordered by the documented key, ties stable. Integration (zsym): under contention, for all 9 task rules, no worker is newly given to a lower-priority task while eligible "
+            "for a strictly higher-priority task that can accept it.", SIM_NOTE, "DESIGN.md §4 C11"),
+    "C12": sim_claim("Oracle: est/eft/lst/lft/critical path length of every task equal an independent longest-path computation at every update inside simulate() and in a unit harness "
+                     "(initialize, then up to two rounds of arbitrary remaining amounts + update_PERT_data(t)); all FS networks on 3 tasks, sampled edge sets on 4 (all on thorough) and 5.", "DESIGN.md §4 C12"),
+    "C13": sim_claim("Oracle: single location, two-way consistency, capacity by top-most placed components, conveyor rule, one change of location per step, no move while a task is WORKING, release when finished, "
+                     "facilities only of the workplace where the component is placed; flat (1 and 2 tasks per component) and nested products; nested-product defects are listed known findings (qualified tags).", "DESIGN.md §4 C13"),
+    "C14": sim_claim("Unit: BaseComponent.check_state over up to 3 consecutive arbitrary monotone task-state vectors (symbolic states, n <= 3 tasks). Integration: the same relation between component and task "
+                     "states at every phase and in the logs on product members incl. components without tasks.", "DESIGN.md §4 C14"),
+    "C15": sim_claim("Harness: twin members, pause step k symbolic (0..makespan and beyond), resume with state/log initialisation off vs one uninterrupted run: identical dumps; same through write/read JSON "
+                     "for saved-settings members (in-memory JSON contract stub; replays use real files).", "DESIGN.md §4 C15"),
+    "C16": sim_claim("Harness: members (workflow, facility/product, sub-project task never/already configured) at four stages (never simulated, paused at symbolic k, forward, backward): export(read(write)) equal "
+                     "value-for-value, every cross reference is an object of the restored project, re-simulation equal, writing never raises; injectivity query per constructor parameter (list from "
+                     "inspect.signature of the current source): two values must give different exports. Unsaved parameters are listed known findings.", "DESIGN.md §4 C16"),
+    "C17": sim_claim("Harness: backward_simulate with both flags, symbolic due times/work, and an exception injected at a symbolic step and each of the four phases; oracle: dependency and workplace link lists are the "
+                     "same objects in the same order, no helper task left, forward simulate afterwards equals a twin's, FS order in (reversed) logs, log lengths.", "DESIGN.md §4 C17"),
+    "C18": sim_claim("Harness: simulate, then sequences of insert_absence_time_list(L)/remove_absence_time_list() with symbolic index lists (step 0, duplicates, beyond the end); oracle: no exception, every log found by "
+                     "reflection has project.time entries, inserted steps are no-work zero-cost steps (positions recomputed independently), insert+remove restores the dump.", "DESIGN.md §4 C18"),
     "C19": (
-        "Bounded symbolic model checking of the real Gantt encoders, extract_* queries, gantt row builders and set_last_datetime: "
+        "Bounded symbolic model checking (CrossHair) of the real Gantt encoders, extract_* queries, gantt row builders and set_last_datetime: "
         "state logs are solver variables (every log of length <= 5 quick / 7 thorough over the state codes the simulator writes), "
         "margins, requested times and dates symbolic; each obligation must be exhausted ('Confirmed over all paths'). "
         "Unit level is right because the property is stated for arbitrary logs.",
@@ -18,6 +62,8 @@ CLAIMS = {
         "sampled witnesses and every counterexample are re-run on plain CPython.",
         "DESIGN.md §4 C19",
     ),
+    "C20": sim_claim("Harness: sub-project simulated with symbolic work and absence steps, saved, BaseSubProjectTask configured from the file with/without absence removal, unit times related (12 unit pairs), parent "
+                     "simulated with symbolic predecessor work; oracle: work amount = duration, WORKING steps = ceil(D*sub/parent) consecutive, starts when gates open, no worker; refused for unsuccessful sources.", "DESIGN.md §4 C20"),
 }
 NOT_YET = "check not built yet in this round (work in progress; technique applies, see DESIGN.md §4)"
 
@@ -61,7 +107,7 @@ def main():
             "name": "vcheck",
             "path": "/verif/vcheck",
             "serves_properties": sorted(CLAIMS),
-            "kind_free_text": "CrossHair 0.0.110 symbolic execution of /repo's pDESy source + z3 5.1; cube-and-conquer over 16 processes; concrete replay of counterexamples and sampled witnesses",
+            "kind_free_text": "zsym (engine/zsym.py): dynamic symbolic execution of /repo's pDESy source by z3-backed proxy numbers, depth-first exhaustion of the path tree; CrossHair 0.0.110 for leaf units; cube-and-conquer over 16 processes; concrete replay of counterexamples and sampled witnesses",
         }],
         "checks": checks,
         "not_applicable": na,
